@@ -19,3 +19,10 @@ open Dashu.Props.C08
 #print axioms print_precision_parse
 #print axioms with_precision_contract
 #print axioms with_precision_unlimited
+#print axioms display_padding_keeps_digits
+#print axioms scientific_padding_keeps_digits
+#print axioms padded_print_parse_round_trip
+#print axioms padded_print_precision_parse
+#print axioms convert_base_long_dividend_contract
+#print axioms convert_base_exact_paths_contract
+#print axioms convert_base_result_digits
